@@ -206,7 +206,8 @@ def s1_skip():
 
 
 def s1_incomparable():
-    sets = [['PartialEq'], ['PartialOrd'], ['PartialEq', 'PartialOrd'], ['PartialEq', 'PartialOrd', 'Clone', 'Debug', 'Hash'], ['PartialOrd', 'Clone', 'Copy']]
+    sets = [['PartialEq'], ['PartialOrd'], ['PartialEq', 'PartialOrd'], ['PartialEq', 'PartialOrd', 'Clone', 'Debug', 'Hash'], ['PartialOrd', 'Clone', 'Copy'],
+            ['PartialEq', 'PartialOrd', 'Clone', 'Debug', 'Hash', 'Default'], ['Default', 'PartialEq']]
     inc = [sub('incomparable')]
     shapes = {
         'unit': lambda a: variant('I', 'Unit', [], a),
@@ -220,6 +221,11 @@ def s1_incomparable():
         yield 'inc/item_struct/' + tag, st('S', named(1, [['T']]), [dw(ts), dw(['incomparable'])])
         yield 'inc/item_unit/' + tag, st('S', [], [dw(ts), dw(['incomparable'])], 'Unit')
         yield 'inc/item_tuple0/' + tag, st('S', [], [dw(ts), dw(['incomparable'])], 'Unnamed')
+        yield 'inc/item_named0/' + tag, st('S', [], [dw(ts), dw(['incomparable'])], 'Named')
+        if 'Debug' in ts:
+            yield 'inc/item_named0_skip_inner/' + tag, st('S', [], [dw(ts), dw(['incomparable']), dw(['skip_inner'])], 'Named')
+            yield 'inc/item_tuple0_skip_inner/' + tag, st('S', [], [dw(ts), dw([skip_meta('skip_inner', ['Debug'])]), dw(['incomparable'])], 'Unnamed')
+            yield 'inc/item_struct_field_skip/' + tag, st('S', named(2, [['T'], ['u8']], [[sub(skip_meta('skip', ['Debug']))], []]), [dw(ts), dw(['incomparable'])])
         yield 'inc/item_enum/' + tag, en('E', [variant('A', 'Unnamed', unnamed(1, [['T']])), variant('B')], [dw(ts), dw(['incomparable'])])
         yield 'inc/item_enum_empty/' + tag, en('E', [variant('A'), variant('B')], [dw(ts), dw(['incomparable'])])
         for sh, mk in shapes.items():
@@ -310,6 +316,20 @@ def s1_discriminant():
                 yield 'disc/dense_unit/' + tag, en('E', [variant(names[k], 'Unit', [], [sub('default')] if k == 1 else [], disc=p6[k]) for k in range(6)], ra + [dw(ts + ['Default'])])
                 if rs is not None and 'Copy' not in ts:
                     yield 'disc/dense_data/' + tag, en('E', [variant(names[k], *(('Unnamed', unnamed(1, [['T']])) if k in (0, 3) else ('Unit', [])), disc=p6[k]) for k in range(6)], ra + [dw(ts)])
+    # the extremes of every integer representation, next to small values (a tag read through the wrong type mis-orders them)
+    W = {'u8': 8, 'u16': 16, 'u32': 32, 'u64': 64, 'u128': 128, 'usize': 64, 'i8': 8, 'i16': 16, 'i32': 32, 'i64': 64, 'i128': 128, 'isize': 64}
+    for r in REPRS:
+        lo, hi = (0, 2 ** W[r] - 1) if r.startswith('u') else (-2 ** (W[r] - 1), 2 ** (W[r] - 1) - 1)
+        pat = [lit(1), lit(hi), lit(lo), lit(hi - 2), None] if r.startswith('u') else [lit(1), lit(hi), lit(lo), lit(-1), None]
+        for rs in ([r], ['C', r]):
+            rtag = '_'.join(rs)
+            for ts in (['PartialOrd', 'PartialEq'], ['Ord', 'PartialOrd', 'PartialEq', 'Eq'], ['PartialOrd', 'PartialEq', 'Clone'], ['PartialOrd', 'PartialEq', 'Clone', 'Copy']):
+                tag = '%s/%s' % (rtag, '+'.join(ts))
+                names = 'ABCDE'
+                if rs == [r]:
+                    yield 'disc/extreme_unit/' + tag, en('E', [variant(names[k], 'Unit', [], [sub('default')] if k == 0 else [], disc=pat[k]) for k in range(5)], [repr_attr(*rs), dw(ts + ['Default'])])
+                if 'Copy' not in ts:
+                    yield 'disc/extreme_data/' + tag, en('E', [variant(names[k], *(('Unnamed', unnamed(1, [['T']])) if k in (1, 4) else ('Unit', [])), disc=pat[k]) for k in range(5)], [repr_attr(*rs), dw(ts)])
     # several repr attributes, extremes
     D = [sub('default')]
     yield 'disc/two_repr_attrs', en('E', [variant('A', 'Unit', [], D), variant('B')], [repr_attr('C'), repr_attr('u16'), dw(['PartialOrd', 'Default'])])
@@ -397,6 +417,22 @@ def s1_zeroize():
         yield 'zeroize/perm/struct/%d' % oi, st('S', named(3, [['T'], ['u8'], ['u16']], list(perm)), [dw(['Zeroize', 'ZeroizeOnDrop', 'Debug'])])
         if oi % 2 == 0:
             yield 'zeroize/perm/enum/%d' % oi, en('E', [variant('A'), variant('B', 'Unnamed', unnamed(3, [['T'], ['u8'], ['u16']], list(perm))), variant('C', 'Named', named(2, [['T'], ['u8']], list(perm)[:2]))], [dw(['Zeroize', 'ZeroizeOnDrop'])])
+    # the skip table under the zeroize features: every non-empty set of groups (one attribute, or one attribute per group) as
+    # skip_inner on a variant / on the struct and as skip on a field, with every trait of the four groups derived
+    all_z = ['Zeroize', 'ZeroizeOnDrop', 'Debug', 'PartialEq', 'Hash', 'Clone']
+    G4 = ['Debug', 'EqHashOrd', 'Hash', 'Zeroize']
+    for r in range(1, 5):
+        for gs in itertools.combinations(G4, r):
+            gt = '_'.join(gs)
+            for split in ((False, True) if r > 1 else (False,)):
+                st_ = 'split' if split else 'one'
+                inner_v = [sub(skip_meta('skip_inner', [g])) for g in gs] if split else [sub(skip_meta('skip_inner', list(gs)))]
+                inner_s = [dw([skip_meta('skip_inner', [g])]) for g in gs] if split else [dw([skip_meta('skip_inner', list(gs))])]
+                fsk = [sub(skip_meta('skip', [g])) for g in gs] if split else [sub(skip_meta('skip', list(gs)))]
+                yield 'zeroize/skip_groups/variant/%s/%s' % (gt, st_), en('E', [variant('A', 'Unnamed', unnamed(2, [['T'], ['u8']]), inner_v), variant('B', 'Named', named(1, [['T']])), variant('C')], [dw(all_z)])
+                yield 'zeroize/skip_groups/struct/%s/%s' % (gt, st_), st('S', named(2, [['T'], ['u8']]), [dw(all_z)] + inner_s)
+                yield 'zeroize/skip_groups/field/%s/%s' % (gt, st_), st('S', named(2, [['T'], ['u8']], [fsk, []]), [dw(all_z)])
+                yield 'zeroize/skip_groups/enum_field/%s/%s' % (gt, st_), en('E', [variant('A', 'Unnamed', unnamed(2, [['T'], ['u8']], [[], fsk])), variant('B')], [dw(all_z)])
     cr = ('EPath', (False, ['zeroize_']))
     cs = ('EStr', '"::my::zeroize"', (True, ['my', 'zeroize']))
     for ctag, c in (('path', cr), ('str', cs)):
